@@ -159,7 +159,7 @@ PROPERTY_RULES: Dict[str, List[Scoped]] = {
         _r("SIGMA-INVARIANCE"), _r("SIGMA-CLOSURE"), _r("SOLVER-STATELESS", ("render.layout:", "utils.geometry:")),
         _r("LOSS-WALK"), _r("LAYOUT-SIDES"),
         _r("NO-TOPOLOGY-WRITE"),
-        _r("FINITE-ARITH"), _r("ANCHOR-SET"),
+        _r("FINITE-ARITH"), _r("ANCHOR-SET"), _r("SUBTREE-BOX"),
     ],
     "C15": [
         _r("TEMPLATE-BRACES"), _r("TEMPLATE-TERMINATED"), _r("PICTURE-ENV"), _r("COLOR-INTERN"),
@@ -599,6 +599,7 @@ _DECIDED_ROUND4 = {
     ],
     "C14": [
         "loss chains over the tree model (LOSS-WALK) and anchor bookkeeping (ANCHOR-SET): necessary for 'every anchor referenced by a drawn branch exists'",
+        "box lemma, proved symbolically for all non-negative child sizes, trunk sizes and spacing parameters: with the offsets and sizes paired as the positioning loop pairs them, the boxes of the two sibling species are disjoint along the across axis, lie inside the parent's box and start below the parent's trunk (SUBTREE-BOX; VERTICAL arm, the other follows by SIGMA-INVARIANCE)",
     ],
     "C15": [
         "the wrap width reaches the wrapping routine unchanged (WIDTH-VERBATIM); the text shown for a node's synteny does not depend on its parent's (LABEL-OMIT leaf-label-source)",
